@@ -402,7 +402,7 @@ fn c10_read_n_pool_request() {
 //@ tier: quick
 //@ timeout: 1200
 //@ what: read_n with a pool ReadBuf, completion side: a completion carrying buffer id and n >= left bytes resolves with exactly that pool buffer holding the n bytes (no spurious UnexpectedEof); n < left continues
-//@ bound: pool 2x4 bytes; buffer id, n (1..=4), left (1..=4) symbolic
+//@ bound: pool 2x4 bytes; buffer id 1; n (1..=4), left (1..=4) symbolic
 //@ encodes: <io::ReadN as Future>::poll; <io_uring::io::ReadOp as FdOp>::map_ok; <io::ReadNBuf as BufMut>::buffer_init; io_uring::op::CompletionFlags::buf_id
 //@ stubs: io_uring::op::poll -> two-arm model (harness/opsup.rs); <core::io::CustomOwner as Drop>::drop -> no-op
 #[kani::proof]
@@ -418,8 +418,8 @@ fn c10_read_n_pool_completion() {
     kani::assume(n >= 1 && n as usize <= pool::CAP);
     let left: usize = kani::any();
     kani::assume(left >= 1 && left <= pool::CAP);
-    let id: u16 = kani::any();
-    kani::assume((id as usize) < pool::POOL);
+    // buffer id concrete (its decoding for every id is c08_buffer_id_decode)
+    let id: u16 = 1;
     let mut fut = ReadN { read: Read::new(&fd, ReadNBuf { buf: rb, last_read: 0 }, NO_OFFSET), offset: NO_OFFSET, left };
     ops::force_done(&mut fut.read.state, n as i32, IORING_CQE_F_BUFFER | (u32::from(id) << 16));
     ops::model_reset();
@@ -440,7 +440,7 @@ fn c10_read_n_pool_completion() {
             assert!(ops::requests() == 1);
         }
     }
-    kani::cover!(id == 1 && n == 4);
+    kani::cover!(n == 4 && left == 4);
     kani::cover!((n as usize) < left);
     std::mem::forget(fut);
     std::mem::forget(fd);
